@@ -1,6 +1,7 @@
 package main
 
 import (
+	"go/types"
 	"go/token"
 	"fmt"
 	"strings"
@@ -317,34 +318,81 @@ func runC03(c *Ctx) {
 
 	// ---- O5: victim selection
 	pkgEv := pkgPGInfo
-	for _, name := range []string{"getMaxTasksToEvict", "getNumOfSubGroupsToEvict"} {
-		fn := c.Anchor("O5", pkgEv, "", name)
-		if fn == nil {
-			continue
+	// "evict ONE pod" (and "ONE sub group") is an elastic shrink: it is chosen only for a pod set that has more
+	// active-allocated pods than its minimum. Stated without helper names: in the selection code reachable from
+	// GetTasksToEvict, wherever the bound of the selection becomes the constant 1 — a `return 1`, or a variable that
+	// takes the value 1 on some path — that path has established minAvailable < GetNumActiveAllocatedTasks().
+	if root := c.Anchor("O5", pkgEv, "", "GetTasksToEvict"); root != nil {
+		isOne := func(v ssa.Value) bool {
+			k, ok := v.(*ssa.Const)
+			if !ok || k.Value == nil || k.Value.ExactString() != "1" {
+				return false
+			}
+			b, isB := k.Type().Underlying().(*types.Basic)
+			return isB && b.Info()&types.IsInteger != 0
 		}
-		nret := 0
-		for _, b := range fn.Blocks {
-			ret, ok := b.Instrs[len(b.Instrs)-1].(*ssa.Return)
-			if !ok {
-				continue
+		surplus := func(f Fact) bool {
+			if f.T.Op != "bin" || len(f.T.Args) != 2 {
+				return false
 			}
-			k, isC := ret.Results[0].(*ssa.Const)
-			if !isC || k.Value == nil || k.Value.ExactString() != "1" {
-				continue
+			l, r := f.T.Args[0], f.T.Args[1]
+			hasMin := func(t *Term) bool {
+				return termHas(t, func(x *Term) bool { return x.Op == "call" && x.Fn != nil && x.Fn.Name() == "GetMinAvailable" })
 			}
-			nret++
-			fs := fx.blockFacts(fn, 0)[b]
-			d, ok2 := hasFact(fs, func(f Fact) bool {
-				if !f.Pol || f.T.Op != "bin" || f.T.Name != "<" {
-					return false
+			isAct := func(t *Term) bool { return t.Op == "call" && t.Fn != nil && t.Fn.Name() == "GetNumActiveAllocatedTasks" }
+			switch {
+			case f.T.Name == "<" && f.Pol, f.T.Name == ">=" && !f.Pol:
+				return hasMin(l) && isAct(r)
+			case f.T.Name == ">" && f.Pol, f.T.Name == "<=" && !f.Pol:
+				return isAct(l) && hasMin(r)
+			}
+			return false
+		}
+		seenFn := map[*ssa.Function]bool{}
+		var fns []*ssa.Function
+		var collect func(f *ssa.Function, d int)
+		collect = func(f *ssa.Function, d int) {
+			if f == nil || f.Blocks == nil || seenFn[f] || d > 3 || relPkg(funcPkgPath(f)) != pkgEv {
+				return
+			}
+			seenFn[f] = true
+			fns = append(fns, f)
+			for _, in := range instrsIn(f, func(ssa.Instruction) bool { return true }) {
+				if cc, ok := in.(ssa.CallInstruction); ok {
+					collect(calleeOf(cc), d+1)
 				}
-				l, r := f.T.Args[0], f.T.Args[1]
-				return termHas(l, func(x *Term) bool { return x.Op == "call" && x.Fn != nil && x.Fn.Name() == "GetMinAvailable" }) &&
-					r.Op == "call" && r.Fn != nil && r.Fn.Name() == "GetNumActiveAllocatedTasks"
-			})
-			c.Check(ok2, "O5", "DOM", funcKey(fn)+": single-victim answer only above minAvailable", instrPos(ret), d, "'evict one pod' is chosen without minAvailable < number of ACTIVE-ALLOCATED pods of the pod set (terminating pods must not count as surplus): an elastic shrink could take a pod set below its minimum")
+			}
 		}
-		c.Floor("O5", "DOM returns of "+name, nret, 1)
+		collect(root, 0)
+		nOne := 0
+		for _, fn := range fns {
+			for _, b := range fn.Blocks {
+				for _, in := range b.Instrs {
+					switch x := in.(type) {
+					case *ssa.Return:
+						if len(x.Results) == 1 && isOne(x.Results[0]) {
+							nOne++
+							d, ok := hasFact(fx.blockFacts(fn, 0)[b], surplus)
+							c.Check(ok, "O5", "DOM", funcKey(fn)+": single-victim answer only above minAvailable", instrPos(x), d, "'evict one pod' is chosen without minAvailable < number of ACTIVE-ALLOCATED pods of the pod set (terminating pods must not count as surplus): an elastic shrink could take a pod set below its minimum")
+						}
+					case *ssa.Phi:
+						for ei, e := range x.Edges {
+							if !isOne(e) {
+								continue
+							}
+							nOne++
+							ef := fx.edgeFacts(b.Preds[ei], b, 0)
+							d, ok := hasFact(ef, surplus)
+							if !ok {
+								d, ok = hasFact(fx.blockFacts(fn, 0)[b.Preds[ei]], surplus)
+							}
+							c.Check(ok, "O5", "DOM", funcKey(fn)+": single-victim answer only above minAvailable", instrPos(b.Preds[ei].Instrs[len(b.Preds[ei].Instrs)-1]), d, "'evict one pod' is chosen without minAvailable < number of ACTIVE-ALLOCATED pods of the pod set (terminating pods must not count as surplus): an elastic shrink could take a pod set below its minimum")
+						}
+					}
+				}
+			}
+		}
+		c.Floor("O5", "DOM single-victim choices", nOne, 2)
 	}
 	if fn := c.Anchor("O5", pkgEv, "", "getTasksToEvictPriorityQueue"); fn != nil {
 		pushes := instrsIn(fn, func(in ssa.Instruction) bool {
